@@ -642,6 +642,7 @@ fn expr_lit<'tcx>(e: &rustc_hir::Expr<'tcx>) -> J {
         ExprKind::Lit(l) => lit_j(&l.node),
         ExprKind::AddrOf(_, _, inner) => expr_lit(inner),
         ExprKind::Tup(es) => J::Obj(vec![("tuple".into(), J::Arr(es.iter().map(|x| expr_lit(x)).collect()))]),
+        ExprKind::Array(es) => J::Obj(vec![("array".into(), J::Arr(es.iter().map(|x| expr_lit(x)).collect()))]),
         ExprKind::Unary(rustc_hir::UnOp::Neg, inner) => J::Obj(vec![("neg".into(), expr_lit(inner))]),
         ExprKind::Path(rustc_hir::QPath::Resolved(_, p)) => {
             let s: Vec<String> = p.segments.iter().map(|s| s.ident.to_string()).collect();
@@ -879,6 +880,13 @@ fn dump_crate<'tcx>(tcx: TyCtxt<'tcx>) -> J {
             DefKind::Fn | DefKind::AssocFn | DefKind::Closure => {
                 o.push(("mir".into(), dump_body(tcx, did)));
                 o.push(("hir".into(), dump_hir(tcx, did)));
+            }
+            DefKind::Const { .. } | DefKind::Static { .. } => {
+                // the initialiser when it is a literal: a named constant used where a literal stood
+                // (`const KEY: &str = "weight"`) is resolved to that literal by the rules
+                if let Some(body) = tcx.hir_maybe_body_owned_by(did) {
+                    o.push(("init".into(), expr_lit(body.value)));
+                }
             }
             _ => {}
         }
